@@ -1,7 +1,7 @@
 (* Props/C08.v -- property C08: printed scripts parse back to the same script at every line width.
    Only statements; every proof is [exact lemma]. *)
 From TV Require Import Base.I32 Gen.FmtTables Model.Fmt Model.FmtLex Model.FmtParse Spec.Fmt
-  Proofs.FmtLits Proofs.FmtLexP Proofs.FmtLitRT Proofs.FmtWidth Proofs.FmtExprLex Proofs.FmtTables Proofs.FmtFold.
+  Proofs.FmtLits Proofs.FmtLexP Proofs.FmtLitRT Proofs.FmtWidth Proofs.FmtExprLex Proofs.FmtTables Proofs.FmtFold Proofs.FmtExprParse Proofs.FmtRoundtrip.
 Open Scope Z_scope.
 
 (* (1) integer literals: every i32 in every IntFormat (signed/unsigned decimal, hex, binary, bool,
@@ -96,16 +96,39 @@ Example C08_width_example :
   /\ render 5 d = Ok ("f(" ^^ String "010" "    10," ^^ String "010" "    20," ^^ String "010" ")")%string.
 Proof. vm_compute. split; reflexivity. Qed.
 
-(* the full statement of the property over expressions (stretch goal; see Proofs and checks/c08.meta.json) *)
+(* (7) the full statement of the property over expressions: for every printable expression of arbitrary
+       nesting, in a parenthesis-suppressing position or not, the printed text lexes and parses (by the
+       lexer and parser specifications) to the expected tree, which denotes the same script.
+       [pf]/[fd]: Rust's str::parse::<f32> and f32 Display, constrained by the two hypotheses. *)
 Definition C08_full : Prop :=
   forall (pf : string -> Z) (fd : Z -> string),
   (forall a, 0 <= a < INF_BITS -> float_shape (float_text fd a) = true) ->
   (forall a, 0 <= a < INF_BITS -> pf (float_text fd a) = a) ->
   forall sup e, pr_expr fd e = true ->
-    lex (print_expr fd sup e) = Ok (expr_toks fd sup e)                    (* proved: C08_expr_no_token_gluing *)
-    /\ parse_tokens pf (expr_toks fd sup e) = Ok (unfold e)                (* checked per case by the correspondence *)
-    /\ (no_odd_nan e = true -> fold (unfold e) = fold e).                  (* proved: C08_unfold_same_script *)
+    parse_text pf (print_expr fd sup e) = Ok (unfold e)
+    /\ (no_odd_nan e = true -> fold (unfold e) = fold e).
 
+Theorem C08_expr_roundtrip : C08_full.
+Proof. exact expr_roundtrip. Qed.
+
+(* printing the re-parsed expression gives the same text again: for expressions in parser form
+   ([unfold e = e]: what the parser itself builds) the round trip is exact *)
+Theorem C08_print_idempotent : forall (pf : string -> Z) (fd : Z -> string),
+  (forall a, 0 <= a < INF_BITS -> float_shape (float_text fd a) = true) ->
+  (forall a, 0 <= a < INF_BITS -> pf (float_text fd a) = a) ->
+  forall sup e, pr_expr fd e = true -> unfold e = e -> parse_text pf (print_expr fd sup e) = Ok e.
+Proof. exact print_idempotent. Qed.
+
+Example C08_roundtrip_example :
+  let fd := fun _ : Z => "1.5"%string in
+  let e := FBin (FLitI (-3) (IF true RHex)) "*" (FCall (CIns 5) [("mask"%string, FLitI 1 dec_fmt)] [FUn "sin" (FDiff [Some (FLitF 1069547520); None])]) in
+  pr_expr fd e = true
+  /\ print_expr fd true e = "-0x3 * ins_5(@mask=1, sin(1.5 :  ))"%string
+  /\ parse_text (fun _ => 1069547520) (print_expr fd true e) = Ok (unfold e)
+  /\ fold (unfold e) = fold e.
+Proof. vm_compute. repeat split. Qed.
+
+Print Assumptions C08_expr_roundtrip.
 Print Assumptions C08_expr_no_token_gluing.
 Print Assumptions C08_int_literal_roundtrip.
 Print Assumptions C08_no_token_gluing.
